@@ -78,13 +78,12 @@ impl ProjSIN {
     let (sin_lat, cos_lat) = lat.sin_cos();
     let dlon = lon - self.center_lon;
     let (sin_dlon, cos_dlon) = dlon.sin_cos();
-    ((
-      cos_lat * sin_dlon,
-      self.cos_center_lat * sin_lat - self.sin_center_lat * cos_lat * cos_dlon
-    ), 
-     (self.sin_center_lat * sin_lat + self.cos_center_lat * cos_lat * cos_dlon).acos(),
-     self.sin_center_lat * sin_lat + self.cos_center_lat * cos_lat * cos_dlon > 0.0
-    )
+    let x = cos_lat * sin_dlon;
+    let y = self.cos_center_lat * sin_lat - self.sin_center_lat * cos_lat * cos_dlon;
+    let z = self.sin_center_lat * sin_lat + self.cos_center_lat * cos_lat * cos_dlon;
+    // (x^2 + y^2).sqrt() is the sine of the angular distance and z its cosine: `z.acos()` is NaN when z is larger than 1
+    // by a rounding error, and has no more than 8 significant digits for small distances
+    ((x, y), (x * x + y * y).sqrt().atan2(z), z > 0.0)
   }
 }
 
